@@ -4,10 +4,10 @@ J = 'include/jsoncons/json_parser.hpp'
 AL = {'ec': '(*ec_p)', 'level_': '(self->level_)', 'more_': '(self->more_)', 'cursor_mode_': '(self->cursor_mode_)', 'state_': '(self->state_)', 'input_end_': '(self->input_end_)',
       'input_ptr_': '(self->input_ptr_)', 'position_': '(self->position_)', 'begin_position_': '(self->begin_position_)', 'line_': '(self->line_)', 'mark_position_': '(self->mark_position_)'}
 RULES = [
-    (r'err_handler_\(json_errc::(\w+), \*this\)', r'vx_err_handler(json_errc_\1)', 0, 3), (r'json_errc::(\w+)', r'json_errc_\1', 0, 4), (r'parse_state::(\w+)', r'parse_state_\1', 1, 8),
+    (r'err_handler_\(json_errc::(\w+), \*this\)', r'vx_err_handler(json_errc_\1)', 0, 30), (r'json_errc::(\w+)', r'json_errc_\1', 0, 30), (r'parse_state::(\w+)', r'parse_state_\1', 1, 60),
     (r'visitor\.bool_value\(true, semantic_tag::none, \*this, ec\);', 'vx_event(VX_EV_TRUE, ec_p);', 0, 1),
-    (r'visitor\.bool_value\(false, semantic_tag::none, \*this, ec\);', 'vx_event(VX_EV_FALSE, ec_p);', 0, 1),
-    (r'visitor\.null_value\(semantic_tag::none, \*this, ec\);', 'vx_event(VX_EV_NULL, ec_p);', 0, 1),
+    (r'visitor\.bool_value\(false, semantic_tag::none, \*this, ec\);', 'vx_event(VX_EV_FALSE, ec_p);', 0, 2),
+    (r'visitor\.null_value\(semantic_tag::none, \*this, ec\);', 'vx_event(VX_EV_NULL, ec_p);', 0, 2),
     (r'const char_type\*', 'const char*', 0, 4),
 ]
 RES = '__CPROVER_return_value'
@@ -43,6 +43,22 @@ SKIP_SPACE = [
      '(vx_state_pushes != 0) ==> (vx_state_pushes == 1 && %s == vx_n && vx_n > vx_off && vx_buf[vx_n - 1] == \'\\r\' && self->state_ == parse_state_cr && vx_pushed_state == __CPROVER_old(self->state_)) && (vx_state_pushes == 0 ==> self->state_ == __CPROVER_old(self->state_))' % PO),
     ('ensures', '[C02] the column counter advances by the number of characters skipped', 'self->position_ == __CPROVER_old(self->position_) + (%s - vx_off)' % PO),
 ]
+# ---- the resumable literal states of parse_some_ (t, tr, tru, f, fa, fal, fals, n, nu, nul): one character per step
+LITS = {'t': ('r', 'tr'), 'tr': ('u', 'tru'), 'tru': ('e', None), 'f': ('a', 'fa'), 'fa': ('l', 'fal'), 'fal': ('s', 'fals'), 'fals': ('e', None), 'n': ('u', 'nu'), 'nu': ('l', 'nul'), 'nul': ('l', None)}
+EVOF = {'tru': 'VX_EV_TRUE', 'fals': 'VX_EV_FALSE', 'nul': 'VX_EV_NULL'}
+def step_contract():
+    c = [('requires', 'self->input_ptr_ == vx_buf + vx_off && vx_off < vx_n && vx_n <= 100000000 && self->input_end_ == vx_buf + vx_n && *ec_p == 0 && vx_events == 0 && !vx_err_called && !vx_other_state && self->position_ <= SIZE_MAX / 2 && self->more_'),
+         ('assigns', '*ec_p, self->more_, self->state_, self->position_, self->input_ptr_, vx_events, vx_ev_kind, vx_err_called, vx_err_code, vx_other_state')]
+    for st, (ch, nxt) in LITS.items():
+        S = '__CPROVER_old(self->state_) == parse_state_%s' % st
+        if nxt:
+            c.append(('ensures', "[C02][C03] resumed in state %s: '%s' continues the literal (one character consumed, state %s, no event); anything else is invalid_value" % (st, ch, nxt),
+                      "(%s) ==> (vx_buf[vx_off] == '%s' ? (*ec_p == 0 && vx_events == 0 && self->state_ == parse_state_%s && self->input_ptr_ == vx_buf + vx_off + 1 && self->position_ == __CPROVER_old(self->position_) + 1 && self->more_) : (*ec_p == json_errc_invalid_value && vx_events == 0 && !self->more_))" % (S, ch, nxt)))
+        else:
+            c.append(('ensures', "[C02][C03] resumed in state %s: '%s' completes the literal: exactly the event the one-piece parse delivers, the same next state, and the parser pauses after it in pull mode exactly as on the fast path (more_ == !cursor_mode_); anything else is invalid_value" % (st, ch),
+                      "(%s) ==> (vx_buf[vx_off] == '%s' ? (vx_visitor_fails || (*ec_p == 0 && vx_events == 1 && vx_ev_kind == %s && self->state_ == (self->level_ == 0 ? parse_state_accept : parse_state_expect_comma_or_end) && self->input_ptr_ == vx_buf + vx_off + 1 && self->more_ == !self->cursor_mode_)) : (*ec_p == json_errc_invalid_value && vx_events == 0 && !self->more_))" % (S, ch, EVOF[st])))
+    c.append(('ensures', '[C02] the slice covers exactly these ten states', 'vx_other_state == !(%s)' % ' || '.join('__CPROVER_old(self->state_) == parse_state_%s' % st for st in LITS)))
+    return c
 SPECS = [
     EnumSpec('parse_state', J), EnumSpec('json_errc', 'include/jsoncons/json_error.hpp'),
     FuncSpec('parse_true', J, r'const char_type\* parse_true\(const char_type\* cur, basic_json_visitor<char_type>& visitor, std::error_code& ec\)', count=1,
@@ -54,6 +70,10 @@ SPECS = [
     FuncSpec('skip_space', J, r'void skip_space\(char_type const \*\* ptr\)', count=1, csig='void skip_space(struct json_parser* self, const char** ptr)', contract=SKIP_SPACE, aliases=AL,
              rules=[(r'const char_type\*', 'const char*', 2), (r'push_state\(state_\);', 'vx_push_state(state_);', 1), (r'parse_state::(\w+)', r'parse_state_\1', 1)],
              loops={0: SPACE_LOOP, 'count': 1}),
+    FuncSpec('literal_step', J, r'void parse_some_\(basic_json_visitor<char_type>& visitor, std::error_code& ec\)', count=1, csig='void literal_step(struct json_parser* self, int* ec_p)',
+             contract=step_contract(), aliases=AL, slice_from=r'case parse_state::t: ', slice_to=r'case parse_state::slash: ',
+             prologue='switch (state_) {', epilogue=' default: vx_other_state = true; break; }',
+             rules=RULES + [(r'visitor\.bool_value\(true,  semantic_tag::none, \*this, ec\);', 'vx_event(VX_EV_TRUE, ec_p);', 1)]),
 ]
 SITE_CHECKS = [
     {'file': J, 'pattern': r"case 't':\s*input_ptr_ = parse_true\(input_ptr_, visitor, ec\);", 'count': (1, 6), 'props': ['C02'], 'what': "parse_true is entered only on the character 't' (its precondition)"},
@@ -64,5 +84,7 @@ HARNESSES = [
     Harness('parse_true', 'h_parse_true', enforce='parse_true', method='LF', props=['C02', 'C03']),
     Harness('parse_false', 'h_parse_false', enforce='parse_false', method='LF', props=['C02', 'C03']),
     Harness('parse_null', 'h_parse_null', enforce='parse_null', method='LF', props=['C02', 'C03']),
+    Harness('literal_step', 'h_literal_step', enforce='literal_step', method='LF', props=['C02', 'C03'],
+            note='program slice of parse_some_: the ten case labels of the partially read literals, wrapped in a switch on state_'),
     Harness('skip_space', 'h_skip_space', enforce='skip_space', loop_contracts=True, method='LC', props=['C02', 'C03'], expect_classes={'loop_invariant_step': 1}),
 ]
